@@ -7,7 +7,9 @@
                                  (call i returns the messages i.0 … i.(k-1) and, when it fails, the error e<i>)
           cancel=<j|->           the message context is cancelled from inside call j
           sleep=<j>:<ns>|-       call j sleeps (only the harness uses it)
-          n=<calls> d=<delays reported to OnRetryHook, in call order | -> ts=<start of call i>,… te=<end of call i>,… tr=<return>
+          conc=<M>:<i>:<ns>|-    the message is number i of M sent concurrently through one middleware instance (harness only:
+                                 every message has to behave as if it were alone)
+          n=<calls> d=<delays reported to OnRetryHook, in call order | -> ts=<start of call i>,… te=<end of call i>,… tr=<return> tq=<ns|->
                                  recorded from the real run (ns since the start of call 0)
   Observation:
     n=<calls> hooks=<num>:<delay>,…|- res=<msgs|->/<err|-> time=ok
@@ -30,6 +32,7 @@ structure Req where
   ts     : List Nat
   te     : List Nat
   tr     : Nat
+  tq     : Option Nat   -- first time the context was asked for its deadline / Done after call 0
 
 def kv (key : String) (tok : String) : Option String :=
   match tok.splitOn "=" with
@@ -66,7 +69,7 @@ def outcomesOf (s : String) : Option (List Outcome) :=
 
 def parseReq (toks : List String) : Option Req :=
   match toks with
-  | [mr, ini, mx, mul, rf, el, hk, lg, outs, cancel, _sleep, n, d, ts, te, tr] => do
+  | [mr, ini, mx, mul, rf, el, hk, lg, outs, cancel, _sleep, conc, n, d, ts, te, tr, tq] => do
     let mr ← (← kv "mr" mr).toInt?
     let ini ← (← kv "init" ini).toNat?
     let mx ← (← kv "max" mx).toNat?
@@ -82,19 +85,42 @@ def parseReq (toks : List String) : Option Req :=
     let cs ← kv "cancel" cancel
     let cancel ← (if cs = "-" then some none else cs.toNat?.map some)
     let _ ← kv "sleep" _sleep
+    let cc ← kv "conc" conc
+    if cc ≠ "-" then
+      match (cc.splitOn ":").mapM String.toNat? with
+      | some [m, i, _] => if m < 2 || i ≥ m then none
+      | _ => none
     let n ← (← kv "n" n).toNat?
     let d ← intList (← kv "d" d)
     let ts ← natList (← kv "ts" ts)
     let te ← natList (← kv "te" te)
     let tr ← (← kv "tr" tr).toNat?
+    let tqs ← kv "tq" tq
+    let tq ← (if tqs = "-" then some none else tqs.toNat?.map some)
     let cfg : Cfg := ⟨mr, ini, mx, p, q, a, b, el, hk == 1⟩
     -- one outcome for every call the model can make, one start/end stamp per observed call, stamps monotone
     if outs.length < max 1 mr.toNat + 1 then none
     if n = 0 || ts.length ≠ n || te.length ≠ n then none
-    pure ⟨cfg, outs, cancel, n, d, ts, te, tr⟩
+    pure ⟨cfg, outs, cancel, n, d, ts, te, tr, tq⟩
   | _ => none
 
 def failOutcome : Outcome := ⟨[], some 0⟩
+
+/-- a timer due this much later than the context's deadline cannot win the `select` (25 ms) -/
+def budgetSlack : Nat := 25000000
+
+/-- the MaxElapsedTime budget ran out during the wait before call k, by counting: the budget started no later than
+    `tq` (or, for k ≥ 2, than `ts 1 − w 1`), so the context's deadline is at most that + MaxElapsedTime; the timer of
+    pass k is due no earlier than the end of call k−1 + the wait `w k`.  Lateness only increases the left-hand side. -/
+def overdue (r : Req) (w : Nat → Nat) (k : Nat) : Bool :=
+  let ts (i : Nat) : Nat := r.ts[i]?.getD 0
+  let te (i : Nat) : Nat := r.te[i]?.getD 0
+  let bound : Option Nat := match r.tq with
+    | some t => some t
+    | none => if k ≥ 2 then some (ts 1 - w 1) else none
+  match bound with
+  | some b => r.cfg.maxElapsed != 0 && k ≥ 1 && decide (te (k - 1) + w k > b + r.cfg.maxElapsed + budgetSlack)
+  | none => false
 
 /-- a draw `k` (random = k/2^53 ∈ [0,1)) with `randomized cfg cur k = d`, if there is one:
     the middle of the pre-image, (d + 1/2 − lo)/R with lo = cur(1−rf), R = 2·cur·rf + 1 -/
@@ -130,7 +156,7 @@ def build (r : Req) : Built :=
     let cancelled := match r.cancel with | some j => decide (j < k) | none => false
     if k < r.n then
       let late := if k = 1 then 0 else (ts k - te (k - 1)) - wOf k
-      ⟨0, draw k, if cancelled then .ctxDone else .timer late, te k - ts k, out⟩
+      ⟨0, draw k, if cancelled || overdue r wOf k then .ctxDone else .timer late, te k - ts k, out⟩
     else
       -- the real run made no k-th call: the context is done if it was cancelled, or if MaxElapsedTime can have passed
       let expired := cfg.maxElapsed != 0 && decide (r.tr - te 0 ≥ cfg.maxElapsed)
@@ -260,6 +286,10 @@ def monitor (r : Req) (o : Obs) : String := Id.run do
       if k ≥ 2 then
         -- the back-off was reset no later than ts 1 − w1 and read its clock for pass k no earlier than te (k−1)
         if te (k - 1) + w1 > ts 1 + cfg.maxElapsed then return "violated:gives_up_on_elapsed"
+    -- … nor after a wait during which the budget ran out (reported delays only)
+    let dOf (k : Nat) : Nat := match o.hooks[k - 1]? with | some (_, d) => d.toNat | none => 0
+    for k in List.range n do
+      if k ≥ 1 && overdue r dOf k then return "violated:gives_up_on_elapsed"
   return "ok"
 
 def handle (line : String) : String :=
